@@ -105,6 +105,10 @@ def run(rep: Report, tier: str) -> None:
         rep.check(ok, ra, JP, gy.qualname, "a written transaction inserts one row, fills it, and advances the row by one", f"a path of the row loop inserts {len(inserts)} row(s), writes {len(cells)} cells and leaves row_index = {show(fin) if fin else None}", loc(row_loop))
     if n_written == 0:
         raise AnalysisError("no completing path of the row loop found")
+    from . import c11
+
+    re_split = rep.rule("C20.e", "artificial fee disposals carry the instant of their acquisition (C11.e restated): a shifted one can land in another year's sheet", floor=20)
+    c11.check_split(rep, re_split)
     from ..stale import check_rows_fresh
 
     check_rows_fresh(rep, ra, norm, gy, row_loop, "JP year sheet rows")
